@@ -17,6 +17,8 @@ def match(kf, prop, line, k, detail):
     """an *open* finding listed for this property whose trigger matches this failing case"""
     if line is None:
         return None
+    if isinstance(line, list):
+        line = line[0][0]
     grammar = line.partition(' M ')[2].partition(' I ')[0].split()
     header = line.split(' ', 5)[:5]
     for f in kf:
